@@ -248,7 +248,7 @@ def fam_poll(rnd, n):
         ns = rnd.choice([2, 3])
         sh = shape([blk([rnd.choice([1, 2]) for _ in range(ns)], conc=rnd.choice([1, 2]), tol=rnd.choice([0, 1]), g=rnd.choice([{}, {"pre": 1}, {"post": 1, "deferred": 1}])),
                     blk([2])], pg=rnd.choice([{}, {"pre": 1}, {"deferred": 1}]), retries=rnd.choice([0, 1, 2]))
-        res.append(scn(sh, "free", rand_outcomes(rnd, sh, 0.2, 0.08), poll=True, slowstore=rnd.choice([0, 100, 300]), tag="poll", latmax=600, waitms=8000))
+        res.append(scn(sh, "free", rand_outcomes(rnd, sh, 0.2, 0.08), poll=True, pollstatus=(i % 3 == 2), slowstore=rnd.choice([0, 100, 300]), tag="poll", latmax=600, waitms=8000))
     return res
 
 
